@@ -90,6 +90,10 @@ func init() {
 					hs = append(hs, HarnessSpec{Name: "crash-and-restart-under-concurrent-senders", Pkg: "actor", Func: "ZZ_L2", Preempt: 2,
 						Params: pm("prop", 5, "T", 2, "M", 2, "crash", 1), Witnesses: []string{"restart"}, Deadline: 40 * time.Minute})
 				}
+				if lp.prop == 6 {
+					hs = append(hs, HarnessSpec{Name: "budget-exhausted-by-a-parent-with-children", Pkg: "actor", Func: "ZZ_C08", Preempt: 1,
+						Params: pm("D", 1, "F", 2, "mode", 5), Witnesses: []string{"terminated-after-a-restart"}, Deadline: 40 * time.Minute, ReplayAttempts: 8})
+				}
 				if lp.prop == 7 {
 					hs = append(hs, HarnessSpec{Name: "poison-caller-waits-among-concurrent-senders", Pkg: "actor", Func: "ZZ_L2", Preempt: 2,
 						Params: pm("prop", 7, "T", 2, "M", 2, "crash", 0), Witnesses: []string{"poison-accepted"}, Deadline: 40 * time.Minute})
@@ -147,13 +151,13 @@ func init() {
 	reg(&PropSpec{
 		ID: "C20",
 		Harnesses: func(tier string) []HarnessSpec {
-			return []HarnessSpec{{Name: "provider-history", Pkg: "cluster", Func: "ZZ_C20_Provider", Params: pm("U", tierSel(tier, 3, 4), "N", tierSel(tier, 3, 4)),
-				Witnesses: []string{"unreachable-member", "unreachable-non-member"}, Deadline: 30 * time.Minute}}
+			return []HarnessSpec{{Name: "provider-history", Pkg: "cluster", Func: "ZZ_C20_Provider", Params: pm("U", tierSel(tier, 3, 4), "N", tierSel(tier, 3, 4), "SHARE", 1),
+				Witnesses: []string{"unreachable-member", "unreachable-non-member", "two-members-on-the-reported-address"}, Deadline: 30 * time.Minute}}
 		},
 		Bounds: func(tier string) string {
 			return fmt.Sprintf("histories of %d messages (handshake from any peer / member list with symbolic contents / RemoteUnreachableEvent for any member address or an unknown address, delivered to the provider's event-stream child handler and forwarded by it) over a universe of %d members", tierSel(tier, 3, 4), tierSel(tier, 3, 4))
 		},
-		Outside:     []string{"the Started handler (zeroconf announce/browse, ping repeater); the event-stream child's handler is driven directly (its subscription to the event stream is not)", "two members sharing one host address", "map iteration order: one order explored"},
+		Outside:     []string{"the Started handler (zeroconf announce/browse, ping repeater); the event-stream child's handler is driven directly (its subscription to the event stream is not)", "which of two members sharing one address a report removes (either is accepted; exactly one must go)", "map iteration order: one order explored"},
 		Assumptions: seqAssume("SelfManaged built by its producer on a Cluster value with a bare engine, a recording agent process and a recording remote; its own member added as Started does; messages delivered by calling Receive"),
 	})
 
@@ -294,10 +298,12 @@ func init() {
 					Witnesses: []string{"child-stopped-on-its-own", "third-party-poisons-child-during-shutdown", "child-panics-in-Stopped"}, Deadline: 60 * time.Minute, ReplayAttempts: 8},
 				{Name: "stopping-child-is-replaced", Pkg: "actor", Func: "ZZ_C08", Preempt: 2, Params: pm("D", 1, "F", 2, "mode", 2),
 					Witnesses: []string{"replacement-spawned"}, Deadline: 60 * time.Minute, ReplayAttempts: 8},
+				{Name: "parent-restarted-then-stopped", Pkg: "actor", Func: "ZZ_C08", Preempt: 1, Params: pm("D", 1, "F", 2, "mode", 4),
+					Witnesses: []string{"parent-restarted-with-children", "app-context-cancelled-before-shutdown"}, Deadline: 60 * time.Minute, ReplayAttempts: 8},
 			}
 		},
 		Bounds: func(tier string) string {
-			return fmt.Sprintf("tree of depth 1 and fan-out 2 with real inboxes; phase 1: optionally one child is poisoned by a third party and has stopped, then Children() is probed; phase 2: the root is stopped or poisoned, optionally while a third party poisons one child concurrently, or while one child panics (once) in its Stopped handler; preemption bound %d. Second harness: a third party poisons a child, which asks the root for a replacement under the same name and id from inside its Stopped handler (the root may handle the request while the old incarnation is still finishing); afterwards Children() lists the live replacement and a shutdown of the root takes it down; preemption bound 2", tierSel(tier, 1, 2))
+			return fmt.Sprintf("tree of depth 1 and fan-out 2 with real inboxes; phase 1: optionally one child is poisoned by a third party and has stopped, then Children() is probed; phase 2: the root is stopped or poisoned, optionally while a third party poisons one child concurrently, or while one child panics (once) in its Stopped handler; preemption bound %d. Second harness: a third party poisons a child, which asks the root for a replacement under the same name and id from inside its Stopped handler (the root may handle the request while the old incarnation is still finishing); afterwards Children() lists the live replacement and a shutdown of the root takes it down; preemption bound 2. Third harness: the root is spawned WithContext(app context), may panic once on a user message and be restarted before Children() is probed, and the app context may be cancelled before the root is stopped or poisoned; preemption bound 1", tierSel(tier, 1, 2))
 		},
 		Outside:     []string{"children that crash on user messages during the shutdown", "deeper / wider trees (depth 2 did not finish within 10 minutes and is not registered)", "map iteration order of the children map: one order explored symbolically (native replays see Go's random order, hence several replay attempts)"},
 		Assumptions: thrAssume("bare engine, real process/Inbox/Context/SafeMap; node receivers record Stopped and check their descendants at that instant; the stop context's cancellation instant is observed through the context model's OnCancel hook"),
